@@ -17,7 +17,7 @@ from vlib import Broken
 def anf_stage(run, srcs, wits, broken):
     """the model of anf.rs (C09/Anf.v, about which the order theorem is proved) against the A-normal form the compiler built,
     function by function; and the order of operations of the real A-normal form against the lifted source (C09/Order.v)"""
-    st = {"programs": 0, "functions": 0, "model_equals_real_anf": 0, "real_anf_keeps_source_order": 0, "lets_bound_by_temporaries": 0}
+    st = {"programs": 0, "functions": 0, "model_equals_real_anf": 0, "real_anf_keeps_source_order": 0, "bodies_meeting_the_meaning_theorems_hypothesis": 0, "lets_bound_by_temporaries": 0}
     root, paths = semrun.write_programs("c09anf", srcs)
     corpus = sorted(glob.glob(os.path.join(vlib.REPO, "crates/compiler/src/tests/pipeline/*/main.gom")))
     paths = paths + corpus
@@ -34,29 +34,35 @@ def anf_stage(run, srcs, wits, broken):
             broken.append(Broken("correspondence", "C09 anf model: the lifted tree / A-normal form has a shape the translator cannot read: %r" % (e,)))
             continue
         for nm, b, n0, a in fs:
-            cases.append((i, nm, "corr %s %d %s" % (b, n0, a)))
+            cases.append((i, nm, "(corr %s %d %s, covered %s)" % (b, n0, a, b)))
             st["lets_bound_by_temporaries"] += a.count("(ALet [116;")
     st["functions"] = len(cases)
     per = 60
     texts = ["From Goml Require Import Common.Base C09.Anf C09.Order C09.Eqb.\nOpen Scope N_scope.\nEval vm_compute in [%s].\n" % "; ".join(c for _, _, c in cases[k : k + per]) for k in range(0, len(cases), per)]
     flat = []
     for o in vlib.coq_eval_many("c09anf", texts, timeout=1500):
-        m = re.search(r"=\s*\[(.*)\]\s*:\s*list \(bool \* bool\)", o, re.S)
+        m = re.search(r"=\s*\[(.*)\]\s*:\s*list \(bool \* bool \* bool\)", o, re.S)
         if not m:
             raise Broken("coq-output", o[-500:])
-        flat += [(a == "true", b == "true") for a, b in re.findall(r"\(\s*(true|false)\s*,\s*(true|false)\s*\)", m.group(1))]
+        flat += [(a == "true", b == "true", c == "true") for a, b, c in re.findall(r"\(\s*(true|false)\s*,\s*(true|false)\s*,\s*(true|false)\s*\)", m.group(1))]
     if len(flat) != len(cases):
         raise Broken("coq-output", "C09 anf: %d results for %d cases" % (len(flat), len(cases)))
     drift = None
-    for (i, nm, _), (same, order) in zip(cases, flat):
+    uncovered = None
+    for (i, nm, _), (same, order, cov) in zip(cases, flat):
         st["model_equals_real_anf"] += same
         st["real_anf_keeps_source_order"] += order
+        st["bodies_meeting_the_meaning_theorems_hypothesis"] += cov
+        if not cov and uncovered is None:
+            uncovered = (nm, srcs[i])
         if not order:
             wits.append({"kind": "the A-normal form of function %s does not perform the operations of the lifted source exactly once, in left-to-right order, inside the same branches" % nm, "program": srcs[i], "function": nm})
         elif not same and drift is None:
             drift = (nm, srcs[i])
     if drift and not any("A-normal form" in w["kind"] for w in wits):
         broken.append(Broken("correspondence", "C09/Anf.v no longer computes the A-normal form the compiler builds (function %s of: %s); theorem anf_keeps_every_operation_once_in_order is about the model" % (drift[0], drift[1][-600:])))
+    if uncovered and not wits:
+        broken.append(Broken("correspondence", "anf_preserves_meaning does not cover function %s (a name of the shape of a temporary, or an operand variable re-bound by a later operand) of: %s" % (uncovered[0], uncovered[1][-600:])))
     shutil.rmtree(root, ignore_errors=True)
     return st
 
